@@ -19,9 +19,16 @@ func genProtoPlan(seed uint64, thorough bool) *Plan {
 	g.keys = []string{"k0", "k1", "k2", "k3"}
 	p := &Plan{Prop: "C15", Seed: seed, Class: "twins", Knobs: Knobs{Turns: true, RandSeed: int64(seed), MaxSteps: 100000, Sticky: 60}}
 	p.Knobs.Frag = g.chance(3)
-	a := []Item{cmdItem("SELECT", "1")}
-	b := []Item{cmdItem("SELECT", "2"), cmdItem("HELLO", "3")}
-	by := []Item{cmdItem("SELECT", "3")}
+	hooked := g.chance(3)
+	var a, b, by []Item
+	if hooked {
+		// the owner of the emulator has installed a dispatch hook that answers
+		// some commands itself
+		a, b, by = []Item{{Op: "barrier", N: 1}}, []Item{{Op: "barrier", N: 1}}, []Item{{Op: "barrier", N: 1}}
+	}
+	a = append(a, cmdItem("SELECT", "1"))
+	b = append(b, cmdItem("SELECT", "2"), cmdItem("HELLO", "3"))
+	by = append(by, cmdItem("SELECT", "3"))
 	n := 10 + g.r.IntN(40)
 	for i := 0; i < n; i++ {
 		var c []string
@@ -52,6 +59,9 @@ func genProtoPlan(seed uint64, thorough bool) *Plan {
 		if isBlockingCmd(c[0]) || strings.EqualFold(c[0], "COPY") && false {
 			c = []string{"LLEN", g.key()}
 		}
+		if hooked && g.chance(6) {
+			c = []string{"ECHO", g.pick("hook:map", "hook:double", "hook:bool", "hook:set", "hook:list", "plain")}
+		}
 		it := Item{Args: bs(c...)}
 		a = append(a, it)
 		b = append(b, it)
@@ -74,6 +84,9 @@ func genProtoPlan(seed uint64, thorough bool) *Plan {
 		}
 	}
 	p.Clients = []Client{{Name: "A", Items: a}, {Name: "B", Items: b}, {Name: "bystander", Items: by}}
+	if hooked {
+		p.Clients = append(p.Clients, Client{Name: "owner", Items: []Item{{Op: "emu-sethook", N: 0, S: "answer"}, {Op: "barrier", N: 1}}})
+	}
 	// the twins advance in lock step: A_i then B_i
 	return p
 }
